@@ -11,6 +11,8 @@
                                                         not on the regenerated white list)      -> "l <status>"
                                                         the payload of the link is a negative code of (file, target path),
                                                         printed name:@<file>|<target path> by v
+     raw <path> <parent label> <name> <payload>         a Blob_t node created through cgio: Mirror.link_new (file only); `v ... Blob_t`
+                                                        prints Mirror.view_file of that kind    -> "l <status>"
      reopen ...                                         cg_close + cg_open: every instance      -> "o 0"
      drop <path>                                        forget the instances at and below <path> (a single child the model
                                                         does not represent was deleted)         -> nothing
@@ -76,6 +78,8 @@ let tables () =
   Printf.printf "addr_tails_ok %b\n" (addr_tails_ok free_sigs addr_tails);
   Printf.printf "sorting_ok %b\n" (sorting_ok sort_calls sort_comparator sort_names_callers);
   Printf.printf "general_write_mentions_cache %b\n" general_write_mentions_cache;
+  Printf.printf "zconn_arm_keeps_current %b\n" (zconn_arm_keeps_current delete_table);
+  Printf.printf "data_sizes_ok %b\n" (data_sizes_ok data_size_rows);
   Printf.printf "link_writer_ok %b\n" (link_writer_ok goto_table link_parents link_calls link_assigns);
   Printf.printf "copy_keeps_links %b\n" (copy_keeps_links copy_link_guard copy_else_recurses copy_callers);
   Stdlib.List.iter (fun l -> Printf.printf "bad_link_parent %s\n" (Stdlib.String.concat "_" (Stdlib.String.split_on_char ' ' (os l))))
@@ -138,6 +142,16 @@ let run () =
         let (s', st) = link_at link_parents (cs pl) s (cs label) (cs name) (z_of_int code) in
         Hashtbl.replace insts path s';
         Printf.printf "l %d\n" (int_of_z st)
+    | ["raw"; path; pl; name; p] ->
+        (* a node the mid-level library does not interpret, created through cgio: in the file only (Mirror.link_new) *)
+        Hashtbl.replace labels path pl;
+        let (s', st) = link_new (get path) (cs "Blob_t") (cs name) (z_of_int (int_of_string p)) in
+        Hashtbl.replace insts path s';
+        Printf.printf "l %d\n" (int_of_z st)
+    | ["v"; path; pl; "Blob_t"] ->
+        (* ... and listed through cgio: what the file holds *)
+        Hashtbl.replace labels path pl;
+        show_view (view_file (cgns_sorted (cs pl)) (get path) (cs "Blob_t"))
     | ["v"; path; pl; label] ->
         Hashtbl.replace labels path pl;
         show_view (view_session (get path) (cs label))
